@@ -1,5 +1,5 @@
 ENGINES = [
-    {"name": "pyscan", "path": "vt/", "serves_properties": ["C01", "C02", "C07", "C10", "C11", "C13", "C19", "C20"],
+    {"name": "pyscan", "path": "vt/", "serves_properties": ["C01", "C02", "C07", "C12", "C10", "C11", "C13", "C19", "C20"],
      "kind_free_text": "runtime monitoring of the real Python scanner modules imported from /repo's working tree: recorded events judged by independent reference models, icontract invariants on live objects"},
 ]
 NOTES = "All checks: ./check <id> --tier quick|thorough [--seed N]; VERIF_SEED/VERIF_TIER honoured. Exit 0 held / 1 VIOLATION / 2 INCONCLUSIVE. See DESIGN.md."
@@ -40,3 +40,7 @@ add('C02', 'pyscan', 'runtime monitoring: generated un-annotated headers through
 add('C07', 'pyscan', 'runtime monitoring: write/read/write cycles of the real GIRWriter/GIRParser on pipeline-produced namespaces and on the repository\'s GIR files; byte comparison, model-agreement walker, built-in --reparse-validate path',
     'held on the executions produced (one recorded known finding: form feed / vertical tab in documentation gives ill-formed GIR): W1==W2==W3 byte for byte for every generated namespace, F==W1 for the 13 expected GIRs, fixed point for the 11 hand-written GIRs, read-back model equal on the API-relevant attribute list',
     'trusted: attribute allowlist of the model walker; generators of C01/C02/C13 + documentation generator', 'DESIGN.md 4 C07')
+
+add('C12', 'pyscan', 'runtime monitoring: generated GObject-style libraries (declarations + runtime dump) through Transformer, GDumpParser (fake introspection binary copies the dump, real subprocess path), MainTransformer, GIRWriter; emitted classes/interfaces/boxed/properties/signals/vfuncs/error domains judged against the model',
+    'held on the executions produced: type names, get-type, nearest known parent through hidden intermediates, resolvable interfaces/prerequisites, property flag bits 0-3 of arbitrary 32-bit words, types and defaults, signal phase/flags/types, boxed pairing, class/iface struct links both ways, instance-first vfuncs only, get-type functions removed, error domains; one defect found and fixed (quark functions absorbed by a class)',
+    'trusted: synthetic dumps in gdump.c\'s format (not yet cross-checked against a real GObject runtime dump), objgen model', 'DESIGN.md 4 C12')
